@@ -43,15 +43,24 @@ type Config struct {
 type LogBuf struct {
 	mu sync.Mutex
 	b  bytes.Buffer
+	// Gate, if set, is called at the beginning of every Printf/Println (engine X makes it a scheduling point: the
+	// application's logger is application code that may take its time)
+	Gate func()
 }
 
 func (l *LogBuf) Printf(format string, v ...interface{}) {
+	if l.Gate != nil {
+		l.Gate()
+	}
 	l.mu.Lock()
 	fmt.Fprintf(&l.b, format, v...)
 	l.b.WriteByte('\n')
 	l.mu.Unlock()
 }
 func (l *LogBuf) Println(v ...interface{}) {
+	if l.Gate != nil {
+		l.Gate()
+	}
 	l.mu.Lock()
 	fmt.Fprintln(&l.b, v...)
 	l.mu.Unlock()
